@@ -458,7 +458,7 @@ func initRollingFileLogger(
 			return err
 		}
 	}
-	return nil
+	return f.logger.Start()
 }
 
 // Append forwards the event to the underlying logger.
@@ -471,8 +471,11 @@ func (f *RollingFileLogger) Write(b []byte) {
 	f.logger.Write(b)
 }
 
-// Stop stops all appenders.
+// Stop stops the underlying logger (flushing buffered events), then all appenders.
 func (f *RollingFileLogger) Stop() {
+	if f.logger != nil {
+		f.logger.Stop()
+	}
 	for _, a := range f.appenders {
 		a.Stop()
 	}
